@@ -16,7 +16,7 @@ from ..gen import rnd
 from ..runner import ddmin_list
 from ..seams import FaultPlan
 from ..session import SimEnv, SeededOutcomes, state_obs, obs_diff, samples_obs, samples_diff
-from ..spec import build_program, program_fp, fp_diff, meas_deps
+from ..spec import build_program, program_fp, fp_diff, meas_deps, free_deps
 from ..world import Violation
 from .c10 import Tape  # per-(mode, k) outcome tape
 
@@ -160,10 +160,29 @@ def generate(seed, tier, batch):
                 k += 1
         else:
             k += 1
+    # free parameters as first parameters of mergeable gates.  The program may have been bound (run) BEFORE it is optimised, with values that
+    # happen to cancel exactly, and is then used with other values: optimisation must hold for all parameter values, not for the ones a
+    # parameter happens to carry
+    rf = random.Random("c03f:%d" % seed)
+    bind0, bind1, prebind = {}, {}, None
+    if rf.random() < 0.3:
+        v = rnd(rf, 0.05, 0.3 * s)
+        k_ = 0
+        for o in ops:
+            if o["op"] in ("Dgate", "Xgate", "Zgate", "Sgate", "Pgate", "Rgate", "Kgate", "Vgate") and o.get("p") and isinstance(o["p"][0], (int, float)) and rf.random() < 0.5 and k_ < 6:
+                name = "f%d" % k_
+                o["p"] = [{"free": name}] + list(o["p"][1:])
+                sc_ = 0.1 if o["op"] in ("Kgate", "Vgate") else 1.0
+                bind0[name] = round(v * sc_ * (-1) ** k_, 6)  # consecutive parameters cancel exactly under the earlier binding
+                bind1[name] = rnd(rf, -0.3 * s * sc_, 0.3 * s * sc_)
+                k_ += 1
+        if bind0:
+            prebind = rf.choice(["run", "bind_params", None])
     tape = {"%d:%d" % (m, kk): rnd(r, -1, 1) for m in range(n) for kk in range(12)}
     order = r.choice([["orig", "opt", "copt"], ["opt", "orig", "copt"], ["copt", "opt", "orig"], ["opt", "copt", "orig", "opt"]])
     return {"backend": backend, "n": n, "ops": [o for o in ops if o["op"] != "BARRIER"], "tape": tape, "order": order, "cutoff": 8,
-            "reopt": r.random() < 0.4, "segs": [], "how": {}, "foreign_first": r.random() < 0.3, "pure": r.random() < 0.7}
+            "reopt": r.random() < 0.4, "segs": [], "how": {}, "foreign_first": r.random() < 0.3, "pure": r.random() < 0.7,
+            "bind0": bind0, "bind": bind1, "prebind": prebind}
 
 
 def circ_sig(circ):
@@ -203,6 +222,25 @@ def execute(script, w):
             except Exception as ex:  # noqa
                 w.log("foreign_error", exc=type(ex).__name__, msg=str(ex)[:200])
         prog = build_program({"n": script["n"], "ops": script["ops"]})
+        used = {f_ for o_ in script["ops"] for e_ in o_.get("p", []) for f_ in free_deps(e_)}
+        args = {k_: v_ for k_, v_ in (script.get("bind") or {}).items() if k_ in used} or None
+        args0 = {k_: v_ for k_, v_ in (script.get("bind0") or {}).items() if k_ in used} or None
+        if args0 and script.get("prebind"):
+            # history: the program has been used with other values before it is optimised
+            w.step("prebind", how=script["prebind"])
+            try:
+                if script["prebind"] == "run":
+                    tape.reset()
+                    simenv.engine(backend, opts).run(prog, args=args0)
+                else:
+                    prog.bind_params(args0)
+            except Violation:
+                return
+            except Exception as ex:  # noqa
+                w.probes["original_not_runnable"] += 1
+                w.log("orig_error", exc=type(ex).__name__, msg=str(ex)[:200])
+                return
+            w.probes["optimised_after_an_earlier_binding"] += 1
         fp0 = program_fp(prog)
         w.step("optimize")
         try:
@@ -223,7 +261,7 @@ def execute(script, w):
             tape.reset()
             w.step("run", which=which)
             try:
-                res = simenv.engine(backend, opts).run(objs[which])
+                res = simenv.engine(backend, opts).run(objs[which], args=args)
             except Violation:
                 w.probes["dropped_impossible_tape_value"] += 1
                 return
@@ -257,7 +295,7 @@ def execute(script, w):
             try:
                 opt2 = opt.optimize()
                 tape.reset()
-                res2 = simenv.engine(backend, opts).run(opt2)
+                res2 = simenv.engine(backend, opts).run(opt2, args=args)
             except Exception as ex:  # noqa
                 w.violation("optimize", "re-optimise-raises", {"exc": type(ex).__name__, "msg": str(ex)[:300]}, feats)
                 return
@@ -287,6 +325,8 @@ def features(script, v):
 def shrink(script):
     for cand in ddmin_list(script["ops"], 1):
         yield dict(script, ops=cand)
+    if script.get("prebind"):
+        yield dict(script, prebind=None)
     if len(script["order"]) > 2:
         for cand in ddmin_list(script["order"], 2):
             if "orig" in cand:
